@@ -505,6 +505,8 @@ class CombinedCategoricalDissimilarity(AbstractDissimilarity):
             cat_dissim = AbsoluteCategoricalDissimilarity()
 
         cat_dissim.delta_empty = delta_empty
+        # the categorical kernel was compiled with the component's own delta_empty
+        cat_dissim.d_mat = cat_dissim.compile_d_mat()
         self.positional_dissim: AbstractDissimilarity = pos_dissim
         self.categorical_dissim: CategoricalDissimilarity = cat_dissim
         self.alpha = alpha
